@@ -582,7 +582,7 @@ FAMILIES = {
     "HDR": lambda rng, t: fam_hdr(rng, 200 * t),
     "CRC": lambda rng, t: fam_crc(rng, 300 * t),
     "EXT": lambda rng, t: fam_ext(rng, 500 * t),
-    "MEM": lambda rng, t: fam_mem(rng, 400 * t, exhaustive_depth=(4 if t == 1 else 5)),
+    "MEM": lambda rng, t: fam_mem(rng, 400 * t, exhaustive_depth=(4 if t == 1 else (5 if t < 24 else 6))),
     "ENC": lambda rng, t: fam_enc(rng, 1500 * t) + fam_encfrag(rng, 800 * t),
     "ENCX": lambda rng, t: fam_encx(rng, 1200 * t),
     "PRE": lambda rng, t: fam_pre(rng, 1200 * t),
